@@ -129,63 +129,63 @@ func VisitsAll(fn *ssa.Function, sel func(ssa.CallInstruction) bool, recv *ssa.P
 	}
 	// higher-order: fn hands a function to a helper that owns the loop
 	higher := func() (bool, string, *ssa.Call, *ssa.Function, bool) {
-	// higher-order: fn hands a function to a helper that owns the loop
-	for _, cl := range Calls(fn) {
-		c2, isCall := cl.(*ssa.Call)
-		h := helperOf(cl)
-		if !isCall || h == nil {
-			continue
+		// higher-order: fn hands a function to a helper that owns the loop
+		for _, cl := range Calls(fn) {
+			c2, isCall := cl.(*ssa.Call)
+			h := helperOf(cl)
+			if !isCall || h == nil {
+				continue
+			}
+			args := Args(c2)
+			for ai, a := range args {
+				if ai >= len(h.Params) {
+					break
+				}
+				var g *ssa.Function
+				switch x := Strip(a).(type) {
+				case *ssa.MakeClosure:
+					g, _ = x.Fn.(*ssa.Function)
+				case *ssa.Function:
+					g = x
+				}
+				if g == nil {
+					continue
+				}
+				delegates := false
+				for _, gc := range Calls(g) {
+					if sel(gc) {
+						delegates = true
+					}
+				}
+				if !delegates {
+					continue
+				}
+				// in h: the call through parameter ai, inside a loop over the parameter that receives recv
+				var dyn *ssa.Call
+				for _, hc := range Calls(h) {
+					if d, ok := hc.(*ssa.Call); ok && !d.Call.IsInvoke() && d.Call.Value == ssa.Value(h.Params[ai]) {
+						dyn = d
+					}
+				}
+				if dyn == nil {
+					continue
+				}
+				v, over, w := LoopVisitsAll(h, dyn)
+				if !v {
+					return false, w, dyn, h, true
+				}
+				passes := false
+				for pi, p := range h.Params {
+					if p.Name() == over && pi < len(args) && Strip(args[pi]) == ssa.Value(recv) {
+						passes = true
+					}
+				}
+				if !passes {
+					return false, "the helper " + h.Name() + " loops over " + over + ", which is not " + rn, dyn, h, true
+				}
+				return true, "", dyn, h, true
+			}
 		}
-		args := Args(c2)
-		for ai, a := range args {
-			if ai >= len(h.Params) {
-				break
-			}
-			var g *ssa.Function
-			switch x := Strip(a).(type) {
-			case *ssa.MakeClosure:
-				g, _ = x.Fn.(*ssa.Function)
-			case *ssa.Function:
-				g = x
-			}
-			if g == nil {
-				continue
-			}
-			delegates := false
-			for _, gc := range Calls(g) {
-				if sel(gc) {
-					delegates = true
-				}
-			}
-			if !delegates {
-				continue
-			}
-			// in h: the call through parameter ai, inside a loop over the parameter that receives recv
-			var dyn *ssa.Call
-			for _, hc := range Calls(h) {
-				if d, ok := hc.(*ssa.Call); ok && !d.Call.IsInvoke() && d.Call.Value == ssa.Value(h.Params[ai]) {
-					dyn = d
-				}
-			}
-			if dyn == nil {
-				continue
-			}
-			v, over, w := LoopVisitsAll(h, dyn)
-			if !v {
-				return false, w, dyn, h, true
-			}
-			passes := false
-			for pi, p := range h.Params {
-				if p.Name() == over && pi < len(args) && Strip(args[pi]) == ssa.Value(recv) {
-					passes = true
-				}
-			}
-			if !passes {
-				return false, "the helper " + h.Name() + " loops over " + over + ", which is not " + rn, dyn, h, true
-			}
-			return true, "", dyn, h, true
-		}
-	}
 		return false, "", nil, nil, false
 	}
 	switch len(calls) {
